@@ -680,7 +680,7 @@ class Gen:
 
 @st.composite
 def programs(draw, maxnodes=12, maxdepth=5, maxloops=2, nouts=1, dtypes=('bool', 'int', 'float', 'complex'), ops=None,
-             out_dtypes=None, maxdim=3, differentiable=False, allow_args=True, family_bias=0.4, arg_bias=1):
+             out_dtypes=None, maxdim=3, differentiable=False, allow_args=True, family_bias=0.4, arg_bias=1, root_outer=0.0):
     g = Gen(draw, maxnodes=maxnodes, maxdepth=maxdepth, maxloops=maxloops, ops=ops, dtypes=dtypes, differentiable=differentiable,
             allow_args=allow_args, family_bias=family_bias, arg_bias=arg_bias)
     outs = []
@@ -692,7 +692,10 @@ def programs(draw, maxnodes=12, maxdepth=5, maxloops=2, nouts=1, dtypes=('bool',
         if i and draw(st.booleans()):
             # second output of the same type as an earlier one, to encourage shared subterms
             dtype, shape = g.nodes[outs[0]]['t']
-        outs.append(g.gen(dtype, shape, maxdepth))
+        if root_outer and len(shape) >= 2 and dtype != 'bool' and g.boolean(root_outer):
+            outs.append(g.outer_product(dtype, shape, maxdepth - 1))      # the output itself is a product of factors on disjoint axes (sparse expansion by clusters)
+        else:
+            outs.append(g.gen(dtype, shape, maxdepth))
     # drop unreachable nodes and renumber
     return prune(dict(nodes=g.nodes, outs=outs, args=g.args))
 
